@@ -9,6 +9,7 @@ import warnings
 from harness import vlib
 from harness.vlib import coq_str
 
+RT_THEOREMS = ["C20_model_roundtrip", "C20_model_roundtrip_single"]
 THEOREMS = ["C20_refs_closed", "C20_refs_closed_single", "C20_total", "C20_cyclic_diverges", "C20_cyclic_unranked",
             "C20_wf", "C20_wf_single", "C20_accumulate_refuted",
             "C20_K9_prefix", "C20_K9_dialect_defaults", "C20_K9_builder", "C20_K9_ref_names_key", "C20_K9_passed_context"]
@@ -41,6 +42,113 @@ def canon(d) -> bytes:
             out += str(len(kb)).encode() + b":" + kb + canon(v)
         return out + b"}"
     raise TypeError(f"not in the model's JSON universe: {d!r}")
+
+
+def coq_js(d) -> str:
+    """a Coq term of type SchemaGen.js"""
+    if d is None:
+        return "JNull"
+    if d is True:
+        return "(JBool true)"
+    if d is False:
+        return "(JBool false)"
+    if isinstance(d, int):
+        return f"(JInt {vlib.coq_z(d)})"
+    if isinstance(d, str):
+        return f"(JStr {coq_str(d)})"
+    if isinstance(d, (list, tuple)):
+        return "(JArr [" + "; ".join(coq_js(x) for x in d) + "])"
+    if isinstance(d, dict):
+        return "(JObj [" + "; ".join(f"({coq_str(k)}, {coq_js(v)})" for k, v in d.items()) + "])"
+    raise TypeError(f"not in the model's JSON universe: {d!r}")
+
+
+def in_js_universe(d) -> bool:
+    if d is None or isinstance(d, (bool, int, str)):
+        return True
+    if isinstance(d, (list, tuple)):
+        return all(in_js_universe(x) for x in d)
+    if isinstance(d, dict):
+        return all(isinstance(k, str) and in_js_universe(v) for k, v in d.items())
+    return False
+
+
+FORMATS = ["date-time", "date", "time", "uuid", "ipv4", "regex", "time-delta", "time-zone", "ipv6interface", "decimal", "fraction", "base64", "path"]
+TYPES = ["null", "boolean", "object", "array", "number", "string", "integer"]
+
+
+def rand_json(r, depth=2):
+    x = r.random()
+    if depth <= 0 or x < 0.6:
+        return r.choice([None, True, False, 0, 1, -7, 2**70, "", "a", "$ref", "\u00e9", "it's"])
+    if x < 0.8:
+        return [rand_json(r, depth - 1) for _ in range(r.randrange(0, 3))]
+    return {r.choice(["a", "$ref", "default", "type", "x"]) + str(i): rand_json(r, depth - 1) for i in range(r.randrange(0, 3))}
+
+
+def rand_schema_doc(r, depth=2) -> dict:
+    """a document over the keywords of the JSONSchema dataclass: typed values, falsy and null sentinels, null-valued
+    ordinary keywords, unknown keywords, arbitrary key order; sometimes an unknown type / format name (from_dict raises)"""
+    d = {}
+    pool = ["$schema", "type", "enum", "const", "format", "title", "description", "anyOf", "$ref", "$defs", "default", "deprecated",
+            "examples", "properties", "patternProperties", "additionalProperties", "propertyNames", "prefixItems", "items", "contains",
+            "multipleOf", "maximum", "exclusiveMaximum", "minimum", "exclusiveMinimum", "maxLength", "minLength", "pattern", "maxItems",
+            "minItems", "uniqueItems", "maxContains", "minContains", "maxProperties", "minProperties", "required", "x-unknown", "$id", "not"]
+    for k in r.sample(pool, r.randrange(0, 7)):
+        if r.random() < 0.08 and k not in ("const", "default"):
+            d[k] = None
+            continue
+        if k in ("$schema", "title", "description", "$ref", "pattern"):
+            d[k] = r.choice(["", "a", "#/$defs/A", "^a*$", "\u00e9 'q'"])
+        elif k == "type":
+            d[k] = "strin" if r.random() < 0.2 else r.choice(TYPES)
+        elif k == "format":
+            d[k] = "date_time" if r.random() < 0.2 else r.choice(FORMATS)
+        elif k in ("enum", "examples"):
+            d[k] = [rand_json(r, 1) for _ in range(r.randrange(0, 4))]
+        elif k in ("const", "default"):
+            d[k] = rand_json(r, 2)
+        elif k in ("deprecated", "uniqueItems"):
+            d[k] = r.choice([True, False])
+        elif k in ("propertyNames", "items", "contains"):
+            d[k] = r.choice([True, 0, "x", []]) if r.random() < 0.1 else (rand_schema_doc(r, depth - 1) if depth > 0 else {})
+        elif k == "additionalProperties":
+            d[k] = r.choice([True, False]) if (depth <= 0 or r.random() < 0.5) else rand_schema_doc(r, depth - 1)
+        elif k in ("anyOf", "prefixItems"):
+            d[k] = [rand_schema_doc(r, depth - 1) if depth > 0 else {} for _ in range(r.randrange(0, 3))]
+        elif k in ("$defs", "properties", "patternProperties"):
+            d[k] = {r.choice(["a", "$ref", "default", "it's"]) + str(i): (rand_schema_doc(r, depth - 1) if depth > 0 else {}) for i in range(r.randrange(0, 3))}
+        elif k == "required":
+            d[k] = [r.choice(["a", "b", "$ref", ""]) for _ in range(r.randrange(0, 3))]
+        elif k in ("x-unknown", "$id", "not"):
+            d[k] = rand_json(r, 1)
+        else:
+            d[k] = r.choice([0, 1, 3, -2, 2**40])
+    items = list(d.items())
+    r.shuffle(items)
+    return dict(items)
+
+
+def rt_cases(ctx: vlib.Ctx, real_docs: list, n_synth: int):
+    """(document, JSONSchema.from_dict(d).to_dict() as canonical text | "ERR")"""
+    from mashumaro.jsonschema.models import JSONSchema
+    r = ctx.rng
+    docs = [d for d in real_docs if in_js_universe(d)]
+    docs += [rand_schema_doc(r, r.choice([0, 1, 2])) for _ in range(n_synth)]
+    docs += [{"const": 0}, {"const": ""}, {"const": False}, {"const": None}, {"default": None, "const": None}, {"default": [], "enum": []},
+             {"properties": {"$ref": {"const": 0}}, "type": "object"}, {}, {"$defs": {}}, {"anyOf": []}, {"required": []}]
+    cases, descr = [], []
+    for d in docs:
+        try:
+            back = JSONSchema.from_dict(d).to_dict()
+            exp = canon(back) if in_js_universe(back) else None
+        except Exception:
+            exp = b"ERR"
+        if exp is None:
+            continue
+        cases.append(f"({coq_js(d)}, {coq_str(exp)})")
+        descr.append({"doc": d, "expected": exp.decode("utf-8", "replace")})
+    return cases, descr
 
 
 def kv_opt_bool(b):
@@ -364,6 +472,7 @@ def m_cases(ctx: vlib.Ctx, n: int):
     from mashumaro.jsonschema.models import Context
     r = ctx.rng
     cases, descr = [], []
+    real_docs = ctx.coverage.setdefault("_real_docs", [])
     tries = 0
     while len(cases) < n and tries < 4 * n:
         tries += 1
@@ -404,12 +513,15 @@ def m_cases(ctx: vlib.Ctx, n: int):
                 if builder:
                     b = JSONSchemaBuilder(**kw)
                     for pt in pytypes:
-                        exp_docs.append(canon(b.build(pt).to_dict()))
+                        real_docs.append(b.build(pt).to_dict())
+                        exp_docs.append(canon(real_docs[-1]))
                     exp_defs = [(k, canon(v.to_dict())) for k, v in b.context.definitions.items()]
+                    real_docs.extend(v.to_dict() for v in b.context.definitions.values())
                 else:
                     c = Context() if pctx is None else Context(dialect=getattr(jd, pctx[0]), all_refs=pctx[1], ref_prefix=pctx[2])
                     doc = build_json_schema(pytypes[0], context=c, with_definitions=wd, with_dialect_uri=wu, **kw).to_dict()
                     exp_docs = [canon(doc)]
+                    real_docs.append(doc)
                     exp_defs = [(k, canon(v.to_dict())) for k, v in c.definitions.items()]
         except RecursionError:
             exp_rec = True
@@ -435,7 +547,7 @@ def m_cases(ctx: vlib.Ctx, n: int):
 
 
 def coq_part(ctx: vlib.Ctx):
-    ctx.theorems("props/C20_schema.vo", THEOREMS, kernels=["K9"])
+    ctx.theorems("props/C20_schema.vo", THEOREMS + RT_THEOREMS, kernels=["K9"])
     ctx.trusted.append("tools/kernels/k9_builder_ctx.py (K9 translator plugin: slices of build_json_schema / JSONSchemaBuilder.__init__ / "
                        "on_dataclass, structure-checked) and coq/theories/PyK_schema.v (str.rstrip('/'), f-string concatenation)")
     ctx.trusted.append("SchemaGen model grammar (scalars, List/Set/Dict[str,.]/Tuple/Union/Optional/dataclass with aliases and rendered "
@@ -473,6 +585,30 @@ def coq_part(ctx: vlib.Ctx):
     ctx.count(n=len(cases))
     for fn in os.listdir(vlib.CASES):
         if fn.startswith((f"c20_k9_{ctx.seed}_{os.getpid()}", f"c20_model_{ctx.seed}_{os.getpid()}", f".c20_k9_{ctx.seed}_{os.getpid()}", f".c20_model_{ctx.seed}_{os.getpid()}")):
+            try:
+                os.remove(os.path.join(vlib.CASES, fn))
+            except OSError:
+                pass
+    # (M) round trip model vs JSONSchema.from_dict(d).to_dict()
+    real_docs = ctx.coverage.pop("_real_docs", [])
+    rcases, rdescr = rt_cases(ctx, real_docs[: ctx.budget(300, 2000)], ctx.budget(400, 3000))
+    rname = f"c20_rt_{ctx.seed}_{os.getpid()}"
+    rbad, rlog = vlib.coq_bad_idx(rname, "PyK_schema SchemaGen K9Proofs SchemaRoundtrip SchemaCorr", "From VerifGen Require Import K9.", "", rcases,
+                                  "rt_ok", "js * string", shard=250, needs=["theories/SchemaCorr.vo"])
+    if rbad is None:
+        ctx.correspondence("roundtrip-model-vs-JSONSchema", len(rcases), -1, rlog)
+        ctx.not_shown("correspondence roundtrip-model-vs-JSONSchema", rlog)
+    else:
+        ctx.correspondence("roundtrip-model-vs-JSONSchema", len(rcases), len(rbad), str([rdescr[i] for i in rbad[:4]])[:2500])
+        if rbad:
+            ctx.not_shown("correspondence roundtrip-model-vs-JSONSchema", str([rdescr[i] for i in rbad[:4]])[:2500])
+        out, _ = vlib.coq_bad_idx(rname + "o", "PyK_schema SchemaGen K9Proofs SchemaRoundtrip SchemaCorr", "From VerifGen Require Import K9.", "", rcases,
+                                  "rt_out", "js * string", shard=250, needs=["theories/SchemaCorr.vo"])
+        ctx.notes.append(f"round trip correspondence: {len(rcases)} documents ({min(len(real_docs), ctx.budget(300, 2000))} emitted by the implementation), "
+                         f"{len(out or [])} outside the modelled value domain (no claim), {sum(1 for d in rdescr if d['expected'] == 'ERR')} with from_dict raising")
+    ctx.count(n=len(rcases))
+    for fn in os.listdir(vlib.CASES):
+        if fn.startswith((rname, "." + rname)):
             try:
                 os.remove(os.path.join(vlib.CASES, fn))
             except OSError:
